@@ -817,6 +817,24 @@ func vfGenConcCase(t *rapid.T, p *vfConcProfile, maxG int) *vfConcCase {
 					clearsLeft--
 				}
 			}
+			if p.id == "C05" && gi < owned && 2*gi+1 < c.Keys && rapid.IntRange(0, 11).Draw(t, "delmacro") == 0 {
+				// the pattern the property is about, on the goroutine's two private keys (which may collide on the
+				// primary hash): an insert still buffered, a Del of the sibling in between, the Del, Wait, Get
+				a, b := 2*gi, 2*gi+1
+				if rapid.Bool().Draw(t, "swapab") {
+					a, b = b, a
+				}
+				if rapid.Bool().Draw(t, "lagfirst") {
+					prog = append(prog, vfCOp{Kind: "set", Key: b, Cost: 0}) // cost 0: the Cost callback may stall the applier
+				}
+				prog = append(prog, vfCOp{Kind: "set", Key: a, Cost: int64(rapid.IntRange(0, 2).Draw(t, "mcost"))})
+				if rapid.Bool().Draw(t, "delsibling") {
+					prog = append(prog, vfCOp{Kind: "del", Key: b})
+				}
+				prog = append(prog, vfCOp{Kind: "del", Key: a}, vfCOp{Kind: "wait"}, vfCOp{Kind: "get", Key: a})
+				i += 4
+				continue
+			}
 			op := vfCOp{Kind: kind}
 			priv := owned
 			if p.id == "C05" {
